@@ -12,29 +12,217 @@ EXPLANATION = ('Bounded symbolic execution (exact real arithmetic, z3 NRA) of th
                'calcule_base on fully symbolic axis / angle (as a (cos,sin) pair on the unit circle) / three '
                'points.  Every path of the real code is explored (generic, collinear, coincident middle point, '
                'axis-aligned); each algebraic law of the statement is one solver query per path; the union of '
-               'path conditions is checked to cover the precondition.  No bound on magnitudes (reals).')
-BOUNDS = {'quick': {'magnitudes': 'unbounded reals', 'query_cap_s': 60},
+               'path conditions is checked to cover the precondition.  No bound on magnitudes (reals).  '
+               'binary64/*: the statements of calcule_base up to its collinearity test are re-read from the current source and '
+               'translated to z3 Float64 terms (RNE, numpy operation order; validated against numpy on 40 vectors per run); QF_FP query: '
+               'is there an exactly collinear triple (0, lam d, d), d integral, for which the test answers "not collinear" and the '
+               'vector it would normalise is not orthogonal to the first frame vector.')
+BOUNDS = {'quick': {'magnitudes': 'unbounded reals', 'query_cap_s': 60, 'binary64': 'd integral, |d_i| <= 8, lam = 1/4, p0 = 0'},
           'thorough': {'magnitudes': 'unbounded reals', 'query_cap_s': 180,
-                       'extra': 'axis-aligned / diagonal specialisations as separate cases'}}
+                       'extra': 'axis-aligned / diagonal specialisations as separate cases', 'binary64': '|d_i| <= 16, lam in {1/2, 2}'}}
 OUTSIDE = ['binary64 rounding (norms 1e-6..1e6): the laws are decided over the reals; tolerances are only '
-           'exercised when a counterexample is replayed',
+           'exercised when a counterexample is replayed; the one binary64 obligation (binary64/*) covers exactly collinear '
+           'triples (0, lam d, d) with small integral d only',
            'cos/sin are an arbitrary point of the unit circle (sound: every angle is one)']
 STUBS = ['numpy proxy: np.array(dtype=float64) keeps dtype=object when elements are symbolic; np.any -> one disjunction',
          'sqrt(e) -> fresh r, r>=0, r*r=e ; cos/sin(theta) -> fresh (c,s), c^2+s^2=1, -theta -> (c,-s), '
          'a+b -> addition formulas']
 ASSUMPTIONS = ['axis != 0', 'first and third point distinct', 'exact real arithmetic (no rounding)',
                'z3 answers unsat/sat are trusted; unknown is reported as inconclusive']
-CASE_TIMEOUT = {'quick': 400, 'thorough': 1500}
+CASE_TIMEOUT = {'quick': 1200, 'thorough': 2400}
 
 
 def cases(tier):
     cs = [{'name': 'rotation_matrix/general'}, {'name': 'rotation_matrix/composition'},
           {'name': 'rotation_matrix/scale-invariance'}, {'name': 'calcule_base/all-paths'},
           {'name': 'calcule_base/ndarray-input', 'ndarray': True}]
+    cs.append({'name': 'binary64/collinear-test', 'B': 8, 'lams': [0.25]})
     if tier == 'thorough':
         for nm in ('x', 'y', 'z', 'diag', 'xy'):
             cs.append({'name': 'calcule_base/dir-' + nm, 'direction': nm})
+        cs.append({'name': 'binary64/collinear-test-16', 'B': 16, 'lams': [0.5, 2.0]})
     return cs
+
+
+# ---- binary64 obligation: exactly collinear float triples must reach the collinear branch ------------------------
+class _FPBackend:
+    """3-vectors of z3 Float64 terms, round-to-nearest-even, operations in numpy's order"""
+    def __init__(self):
+        self.rm = z3.RNE()
+    def sub(self, a, b): return self._bin(z3.fpSub, a, b)
+    def add(self, a, b): return self._bin(z3.fpAdd, a, b)
+    def mul(self, a, b): return self._bin(z3.fpMul, a, b)
+    def div(self, a, b): return self._bin(z3.fpDiv, a, b)
+    def _bin(self, op, a, b):
+        va, vb = isinstance(a, list), isinstance(b, list)
+        if va and vb:
+            return [op(self.rm, x, y) for x, y in zip(a, b)]
+        if va:
+            return [op(self.rm, x, b) for x in a]
+        if vb:
+            return [op(self.rm, a, y) for y in b]
+        return op(self.rm, a, b)
+    def dot(self, a, b):
+        return z3.fpAdd(self.rm, z3.fpAdd(self.rm, z3.fpMul(self.rm, a[0], b[0]), z3.fpMul(self.rm, a[1], b[1])), z3.fpMul(self.rm, a[2], b[2]))
+    def norm(self, a): return z3.fpSqrt(self.rm, self.dot(a, a))
+    def cross(self, a, b):
+        m, sb = (lambda x, y: z3.fpMul(self.rm, x, y)), (lambda x, y: z3.fpSub(self.rm, x, y))
+        return [sb(m(a[1], b[2]), m(a[2], b[1])), sb(m(a[2], b[0]), m(a[0], b[2])), sb(m(a[0], b[1]), m(a[1], b[0]))]
+
+
+class _NPBackend:
+    """the same interface on real numpy float64 arrays with the real numpy functions (translator validation)"""
+    def sub(self, a, b): return a - b
+    def add(self, a, b): return a + b
+    def mul(self, a, b): return a * b
+    def div(self, a, b): return a / b
+    def dot(self, a, b): return np.dot(a, b)
+    def norm(self, a): return np.linalg.norm(a)
+    def cross(self, a, b): return np.cross(a, b)
+
+
+def _collinear_test_of_source(backend, pos):
+    """Interpret the statements of the current calcule_base up to its first `if` on `backend` values.
+    -> (tested vector X of `if not np.any(X)`, environment).  Raises NoMatch when the source has another shape."""
+    import ast
+    from symx import astk
+    from symx.astk import NoMatch
+    fn, src = astk.get_function_ast('gaddlemaps._auxilliary:calcule_base')
+    env = {'pos': list(pos)}
+
+    def ev(e):
+        if isinstance(e, ast.Name):
+            if e.id not in env:
+                raise NoMatch('name %s' % e.id)
+            return env[e.id]
+        if isinstance(e, ast.BinOp):
+            a, b = ev(e.left), ev(e.right)
+            op = {ast.Sub: backend.sub, ast.Add: backend.add, ast.Mult: backend.mul, ast.Div: backend.div}.get(type(e.op))
+            if op is None:
+                raise NoMatch('operator %s' % type(e.op).__name__)
+            return op(a, b)
+        if isinstance(e, ast.Call):
+            f = ast.unparse(e.func)
+            args = [ev(a) for a in e.args]
+            if f == 'np.linalg.norm' and len(args) == 1 and not e.keywords:
+                return backend.norm(args[0])
+            if f == 'np.cross' and len(args) == 2 and not e.keywords:
+                return backend.cross(*args)
+            if f == 'np.dot' and len(args) == 2 and not e.keywords:
+                return backend.dot(*args)
+            raise NoMatch('call %s' % f)
+        raise NoMatch('expression %s' % type(e).__name__)
+
+    for st in fn.body:
+        if isinstance(st, ast.Expr) and isinstance(getattr(st, 'value', None), ast.Constant):
+            continue                                               # docstring
+        if isinstance(st, ast.Assign) and len(st.targets) == 1:
+            tg = st.targets[0]
+            if isinstance(tg, ast.Tuple) and isinstance(st.value, ast.Name) and st.value.id == 'pos' and len(tg.elts) == 3:
+                for nm, val in zip(tg.elts, env['pos']):
+                    env[nm.id] = val
+                continue
+            if isinstance(tg, ast.Name):
+                env[tg.id] = ev(st.value)
+                continue
+            raise NoMatch('assignment target')
+        if isinstance(st, ast.AugAssign) and isinstance(st.target, ast.Name):
+            op = {ast.Div: backend.div, ast.Mult: backend.mul, ast.Sub: backend.sub, ast.Add: backend.add}.get(type(st.op))
+            if op is None:
+                raise NoMatch('augmented operator')
+            env[st.target.id] = op(env[st.target.id], ev(st.value))
+            continue
+        if isinstance(st, ast.If):
+            t = st.test
+            if isinstance(t, ast.UnaryOp) and isinstance(t.op, ast.Not) and isinstance(t.operand, ast.Call) \
+                    and ast.unparse(t.operand.func) == 'np.any' and len(t.operand.args) == 1:
+                return ev(t.operand.args[0]), env
+            raise NoMatch('collinearity test is not `not np.any(X)`: %s' % ast.unparse(t)[:60])
+        raise NoMatch('statement %s' % type(st).__name__)
+    raise NoMatch('no if statement')
+
+
+def _binary64(case):
+    """QF_FP: for p0 = 0, p2 = d (integral components, |d_i| <= B), p1 = lam * d (exact): is there a d for which the
+    binary64 evaluation of the code's own collinearity test says 'not collinear' and the vector it would then normalise is
+    visibly not orthogonal to the first frame vector?"""
+    import time
+    from symx.astk import NoMatch
+    records, samples = [], []
+    B = case['B']
+    D = z3.Float64()
+    rm = z3.RNE()
+    fpb, npb = _FPBackend(), _NPBackend()
+    solver_s = 0.0
+    for lam in case['lams']:
+        d = [z3.FP('d%d' % i, D) for i in range(3)]
+        zero = [z3.FPVal(0.0, D)] * 3
+        p1 = [z3.fpMul(rm, z3.FPVal(lam, D), x) for x in d]
+        try:
+            X, env = _collinear_test_of_source(fpb, [zero, p1, d])
+            v1 = env.get('vec1')
+            if not (isinstance(X, list) and len(X) == 3 and isinstance(v1, list)):
+                raise NoMatch('tested value is not a 3-vector / no vec1')
+        except NoMatch as e:
+            records.append({'name': 'binary64 collinearity test (lam=%g): source shape not supported by the float translator (%s)' % (lam, e), 'status': 'unknown', 'secs': 0})
+            continue
+        # translator validation: the same statements on numpy float64 with the real numpy functions
+        ok, rs = True, random.Random(5)
+        for _ in range(40):
+            dv = np.array([float(rs.randint(-B, B)) for _ in range(3)])
+            if not dv.any():
+                continue
+            Xn, _e = _collinear_test_of_source(npb, [np.zeros(3), lam * dv, dv.copy()])
+            sub = [(d[i], z3.FPVal(float(dv[i]), D)) for i in range(3)]
+            for k in range(3):
+                zk = z3.simplify(z3.substitute(X[k], *sub))
+                zf = float(eval(str(zk).replace('*(2**', '*(2.0**'))) if not (z3.is_fp_value(zk) and (zk.isNaN() or zk.isInf())) else float('nan')
+                if zf != float(Xn[k]) and not (zf == 0 and float(Xn[k]) == 0):
+                    ok = False
+                    records.append({'name': 'translator-validation', 'status': 'error', 'secs': 0,
+                                    'detail': 'd=%s component %d: z3 %r vs numpy %r' % (dv.tolist(), k, zf, float(Xn[k]))})
+                    break
+            if not ok:
+                break
+        if not ok:
+            continue
+        records.append({'name': 'translator-validation (binary64 term vs numpy on 40 integer directions, lam=%g)' % lam, 'status': 'validated', 'secs': 0})
+        s = z3.Solver()
+        s.set('timeout', 900000)
+        for x in d:
+            s.add(z3.fpRoundToIntegral(rm, x) == x, z3.fpLEQ(z3.fpAbs(x), z3.FPVal(float(B), D)))
+        s.add(z3.Or(*[z3.Not(z3.fpIsZero(x)) for x in d]))
+        s.add(z3.Or(*[z3.Not(z3.fpIsZero(x)) for x in X]))                      # the code says: not collinear
+        t = time.time(); r = str(s.check())
+        if r == 'sat':
+            # stage 2 (fresh solver): among those, one whose (rounding-noise) vector is visibly not orthogonal to the first
+            # frame vector, so that the frame built from it is not orthonormal (this is what the replay observes)
+            s1_model = s.model()
+            s2 = z3.Solver(); s2.set('timeout', 900000)
+            for a_ in s.assertions():
+                s2.add(a_)
+            cd = fpb.dot(X, v1)
+            s2.add(z3.fpGT(z3.fpMul(rm, cd, cd), z3.fpMul(rm, z3.FPVal(2.0 ** -6, D), z3.fpMul(rm, fpb.dot(X, X), fpb.dot(v1, v1)))))
+            r2 = str(s2.check())
+            if r2 == 'sat':
+                s = s2
+            # otherwise the stage-1 witness is replayed as it is (the replay decides whether the frame is broken)
+        secs = round(time.time() - t, 1); solver_s += secs
+        rec = {'name': 'binary64: every exactly collinear triple (0, %g d, d), d integral with |d_i| <= %d, reaches the collinear branch '
+                       '(or leaves a vector orthogonal to the first frame vector)' % (lam, B), 'status': r, 'secs': secs}
+        if r == 'sat':
+            m = s.model()
+            dv = [float(eval(str(m.eval(x, model_completion=True)).replace('*(2**', '*(2.0**'))) for x in d]
+            fr = lambda x: list(fractions.Fraction(x).limit_denominator(1 << 20).as_integer_ratio())
+            inp = {}
+            for k in range(3):
+                inp['p0_%d' % k] = [0, 1]; inp['p1_%d' % k] = fr(lam * dv[k]); inp['p2_%d' % k] = fr(dv[k])
+            rec['witness'] = {'kind': 'calcule_base', 'inputs': inp, 'binary64': True}
+        records.append(rec)
+        samples.append({'lam': lam, 'B': B, 'tested_vector[0]': str(X[0])[:200]})
+    records.append({'name': 'reachability-twin', 'status': 'twin', 'secs': 0})
+    return {'records': records, 'paths': len(case['lams']), 'queries': len(case['lams']), 'solver_s': solver_s, 'samples': samples,
+            'nontrivial': ['binary64 lam=%g' % l for l in case['lams']]}
 
 
 def _setup():
@@ -67,6 +255,8 @@ def run_case(case):
     paths = queries = 0
     solver_s = 0.0
     name = case['name']
+    if name.startswith('binary64/'):
+        return _binary64(case)
     rng = random.Random(case['seed'])
 
     def oblig(ctx, nm, claim, inputs, kind, abstract=None):
@@ -156,6 +346,15 @@ def run_case(case):
                     ok = got is not None and max(abs(g - w) for g, w in zip(got, want)) < 1e-9
                     records.append({'name': 'translator-validation', 'status': 'validated' if ok else 'error', 'secs': 0,
                                     'detail': 'symbolic vs float rotation_matrix differ: %s vs %s' % (got, list(want))})
+                # the symbolic axis stands for every accepted array dtype: the real function on narrow integer / float32 / list axes
+                # must give the matrix of the same axis in float64 (machine integers wrap, mathematical ones do not)
+                if paths == 1:
+                    for dt, axv in _DTYPE_AXES:
+                        bad = _dtype_probe(dt, axv)
+                        rec = {'name': 'translator-validation: axis %s as %s gives the float64 matrix' % (axv, dt), 'status': 'validated' if not bad else 'sat', 'secs': 0}
+                        if bad:
+                            rec['witness'] = {'kind': 'dtype-axis', 'dtype': dt, 'axis': axv, 'inputs': {}}
+                        records.append(rec)
                 samples.append({'path_condition': [str(p) for p in ctx.pc], 'R[0][0]': str(z3.simplify(expr(R[0, 0])))[:300]})
             elif name.endswith('composition'):
                 oblig(ctx, 'R(a) R(b) = R(a+b)', _mat_eq(R.dot(res['Rb']), res['Rab']), inputs, 'rotation_matrix2')
@@ -255,11 +454,41 @@ def run_case(case):
 
 
 # ---------------------------------------------------------------------------------------------
+_DTYPE_AXES = [('int32', [60000, 80000, 0]), ('int16', [300, 400, 0]), ('int64', [3, 4, 12]), ('int8', [100, 100, 50]),
+               ('float32', [0.5, 0.25, 2.0]), ('list', [1, 2, 2])]
+
+
+def _dtype_probe(dt, axv):
+    import importlib
+    real_rm = importlib.import_module('gaddlemaps._auxilliary').rotation_matrix
+    from symx import npx
+    npx.uninstall()
+    try:
+        with np.errstate(all='ignore'):
+            ax = list(axv) if dt == 'list' else np.array(axv, dtype=dt)
+            keep = list(axv)
+            got = np.asarray(real_rm(ax, 0.7), dtype=float)
+            want = np.asarray(real_rm(np.array(axv, dtype=float), 0.7), dtype=float)
+        bad = []
+        if got.shape != (3, 3) or not np.all(np.isfinite(got)) or np.abs(got - want).max() > 1e-6:
+            bad.append('rotation_matrix(%s axis %s) differs from the float64 result (max %.3g)' % (dt, axv, np.abs(got - want).max() if got.shape == (3, 3) else float('nan')))
+        if list(np.asarray(ax).tolist()) != keep:
+            bad.append('axis argument modified')
+        return bad
+    finally:
+        npx.install(modules=['gaddlemaps._auxilliary'])
+
+
 def replay(w):
     """Concrete replay against the real code, no proxy."""
     import math
     from symx.core import fval
     from gaddlemaps import rotation_matrix, calcule_base
+    if w.get('kind') == 'dtype-axis':
+        from symx import npx
+        bad = _dtype_probe(w['dtype'], w['axis'])
+        npx.uninstall()
+        return {'reproduced': bool(bad), 'what': 'rotation_matrix: ' + '; '.join(bad), 'detail': {'dtype': w['dtype'], 'axis': w['axis']}}
     v = {k: fval(x) for k, x in w['inputs'].items()}
     kind = w['kind']
     if kind.startswith('rotation_matrix'):
